@@ -37,9 +37,9 @@ ASSUMPTIONS = [
     "trusted base: engine rig (virtual clock, RecordingHardware, logging UOD callbacks), extra arg-less user commands "
     "On1/On2 added through uod_factory",
 ]
-REQUIRED = {"pause_entries": 3000, "unpause_judged": 2000, "unpause_with_live_snapshot": 1500,
-            "unpause_without_live_snapshot": 300, "visible_restores": 500, "hw_crosschecks": 1000,
-            "unpause_with_unundone_pause_of_earlier_run": 50, "timed_pause_self_unpause": 100, "cancelled_timed_pause": 20}
+REQUIRED = {"pause_entries": 5000, "unpause_judged": 2000, "unpause_with_live_snapshot": 1500,
+            "unpause_without_live_snapshot": 400, "visible_restores": 1000, "hw_crosschecks": 5000,
+            "unpause_with_unundone_pause_of_earlier_run": 80, "timed_pause_self_unpause": 400, "cancelled_timed_pause": 40}
 EXHAUSTIVE_ALL = False
 
 SAFE_REGS = ("Out1", "Out2")
